@@ -200,7 +200,7 @@ Qed.
 
 (* the data types of variant fields this model covers *)
 Definition core_dt (dt : DT) : Prop :=
-  match dt with DNull | DBool | DPrim (PInt _) | DBytes BUtf8 | DBytes BLargeUtf8 | DList _ _ | DStruct _ => True | _ => False end.
+  match dt with DNull | DBool | DPrim _ | DBytes BUtf8 | DBytes BLargeUtf8 | DList _ _ | DStruct _ => True | _ => False end.
 
 Lemma child_ok_core f c : child_ok f c -> core_dt (fdt' f).
 Proof.
@@ -221,7 +221,7 @@ Lemma interp_unit_eq f : core_dt (fdt' f) -> interp_unit f = interp f VUnit.
 Proof.
   destruct f as [nm dt nl]. cbn [fdt' interp_unit interp fnullable'].
   destruct dt as [| |pk|bk| | | | | | | |]; cbn [core_dt]; intros H; try contradiction;
-    try (destruct pk; try contradiction); try (destruct bk; try contradiction);
+    try (destruct bk; try contradiction);
     rewrite ?Bool.orb_false_r, ?Bool.orb_true_r; reflexivity.
 Qed.
 
